@@ -8,4 +8,5 @@ import (
 func extractMore(repo string, o *leanOut) {
 	mc := consts(parseDir(filepath.Join(repo, "mpx")))
 	o.str("protocolLine", mc.str("ProtocolLine"))
+	extractEvents(repo, o)
 }
